@@ -141,6 +141,8 @@ class BleController(AbstractController):
         )
 
     async def async_find(self, device_id: str, timeout: float = 10) -> BleDiscovery:
+        device_id = device_id.lower()
+
         if discovery := self.discoveries.get(device_id):
             logger.debug("Discovery for %s already found", device_id)
             return discovery
